@@ -741,8 +741,8 @@ SIZES = {
     #            exhaustive containers   random graphs  pipeline programs / cell, cells
     'quick':    {'containers': ['list'], 'rnd_cells': 16, 'rnd_count': 125,
                  'pipe_cells': 8, 'pipe_programs': 5, 'exh_cells': 32},
-    'thorough': {'containers': ['list', 'set', 'frozenset'], 'rnd_cells': 160, 'rnd_count': 1250,
-                 'pipe_cells': 32, 'pipe_programs': 25, 'exh_cells': 64},
+    'thorough': {'containers': ['list', 'set'], 'rnd_cells': 100, 'rnd_count': 1000,
+                 'pipe_cells': 16, 'pipe_programs': 20, 'exh_cells': 32},
 }
 
 
@@ -755,7 +755,7 @@ def plan(tier, seed):
         c = {'kind': 'pipe', 'language': LANGS[i % len(LANGS)],
              'seeds': [common.h32(seed, 'C19-prog', i, j) for j in range(sz['pipe_programs'])],
              'nx_every': 1 if tier == 'quick' else 3}
-        if tier != 'quick' and i >= 4 * 4:
+        if tier != 'quick' and i >= 8:
             c['switches'] = [s for s in SWITCHES if r.random() < 0.3]
             c['max_depth'] = r.choice((None, None, 5, 6, 7))
             c['transformations'] = r.choice((1, 2, 3))
@@ -807,6 +807,7 @@ def main(prop, tier):
     agg.floor('pipe.nonempty.dfs', 60 * sz['pipe_cells'] * sz['pipe_programs'])
     agg.floor('second_opinion.graphs', EXH_TOTAL + rnd_total)
     for bad, why in (('oracle_disagreement', 'reference and networkx disagree on %d graph(s)'),
+                     ('graph_mutated', 'a query modified its input graph on %d graph(s)'),
                      ('watchdog', '%d graph(s) hit the per-graph call watchdog'),
                      ('pipe.monitor_error', 'the pipeline monitor failed on %d call(s)')):
         if ev.get(bad):
